@@ -50,7 +50,7 @@ func Simplify(p *kernel.Plan) []*kernel.Plan {
 				emit(i, x)
 			}
 		}
-		if e.T == "tx" {
+		if e.T == "tx" || (e.T == "group" && len(e.Body) > 1) {
 			for j := range e.Body {
 				x := e
 				x.Body = append(append([]Ev{}, e.Body[:j]...), e.Body[j+1:]...)
